@@ -301,12 +301,16 @@ class DULServiceProvider(threading.Thread):
         if self.dul_socket is None:
             return False
 
-        # wait for remote connection to close
-        try:
-            while self.dul_socket.recv(1) != b'':
-                continue
-        except socket.error:
+        # wait for remote connection to close, without blocking the loop: ARTIM timer has
+        # to be able to expire if remote side never closes the connection
+        if not select.select([self.dul_socket], [], [], 0.05)[0]:
             return False
+
+        try:
+            if self.dul_socket.recv(self.max_pdu_length) != b'':
+                return False  # association no longer exists, data is ignored
+        except socket.error:
+            pass
 
         self.dul_socket.close()
         self.dul_socket = None
